@@ -6,9 +6,13 @@
    configuration (rule condition, then filter condition); the invariant is evaluated on the
    complete configuration:  Den(combined condition over combined names)
                           = Den(rule cond over rule names) AND Den(filter cond over filter names)
-   for all truth assignments - except for the capture the mechanism is known to allow: a RULE
-   pattern that itself starts with an underscore also matches the injected names.        *)
+   for all truth assignments.  The two captures TLC found in the first version of the mechanism (a RULE
+   pattern starting with an underscore reaching the injected names; an underscore name of the FILTER
+   losing the shield of the underscore rule once it carries the prefix) were repaired by giving
+   generated names a name space of their own; MC_Filter_negative.cfg runs the mechanism without
+   it and must be refuted.                                                                *)
 EXTENDS Filter, TLC
+CONSTANT NameSpaces        \* TRUE: generated names are out of reach of foreign patterns (the repaired selector); FALSE: negative control
 VARIABLES rc, fc, stage, fam
 vars == <<rc, fc, stage, fam>>
 N(s) == s
@@ -29,25 +33,14 @@ Spec == Init /\ [][Next]_vars
 
 nr == Len(RuleNames)
 nf == Len(FilterNames)
-Combined == Den(CombinedCond(CPrint(rc, "min"), CPrint(fc, "min"), Prefix), CombinedNames(RuleNames, FilterNames, Prefix))
+Combined == DenM(CombinedCond(CPrint(rc, "min"), CPrint(fc, "min"), Prefix), CombinedNames(RuleNames, FilterNames, Prefix), NameSpaces)
 RuleAlone == Den(CPrint(rc, "min"), RuleNames)
 FilterAlone == Den(CPrint(fc, "min"), FilterNames)
 Shift(e) == MapAtoms(e, [i \in 1..nf |-> nr + i])
-UnderscorePattern(a) == a.k = "sel" /\ a.p # <<>> /\ a.p[1] = CH_US
-RECURSIVE HasUnderscorePattern(_)
-HasUnderscorePattern(a) == CASE a.k = "sel" -> UnderscorePattern(a) [] a.k = "id" -> FALSE
-                             [] a.k = "cnot" -> HasUnderscorePattern(a.a) [] OTHER -> HasUnderscorePattern(a.l) \/ HasUnderscorePattern(a.r)
+\* no capture in either direction, whatever the names and patterns begin with (both name families, underscore patterns
+\* of the rule included)
 NoCaptureEitherWay ==
-    (stage = 2 /\ ~HasUnderscorePattern(rc) /\ fam = 1 /\ RuleAlone.st = "ok" /\ FilterAlone.st = "ok") =>
+    (stage = 2 /\ RuleAlone.st = "ok" /\ FilterAlone.st = "ok") =>
         /\ Combined.st = "ok"
         /\ TT(Combined.e, nr + nf) = TT(And(<<RuleAlone.e, Shift(FilterAlone.e)>>), nr + nf)
-\* the capture the mechanism admits (design-level finding, kept as a witness)
-UnderscoreRulePatternCaptures ==
-    (stage = 2 /\ fam = 1 /\ rc = CSel("1", <<95,42>>) /\ fc = CId(FilterNames[1])) =>
-        TT(Combined.e, nr + nf) # TT(And(<<RuleAlone.e, Shift(FilterAlone.e)>>), nr + nf)
-\* second design-level finding: an underscore-leading detection name of the FILTER is shielded from
-\* the filter's own patterns by the underscore rule, but not any more once it carries the prefix
-FilterUnderscoreNameLosesShield ==
-    (stage = 2 /\ fam = 2 /\ rc = CId(RuleNames[1]) /\ fc = CSel("any", <<42,120>>)) =>
-        TT(Combined.e, nr + nf) # TT(And(<<RuleAlone.e, Shift(FilterAlone.e)>>), nr + nf)
 =============================================================================
